@@ -11,3 +11,4 @@ def build(run):
     PA.band_connection_pairing(run)
     run.py_contract(GV.VF, "GroupVelocity.run", lambda: GV.run_history_independence(run), GV.replay_gv_history)
     run.py_contract(PL.DF, "run_dynamical_matrix_solver_c[q-point layout]", lambda: PL.solver_qpoint_layout(run), PL.replay_layout)
+    GV.mesh_iteration_restart(run)
